@@ -12,7 +12,8 @@ three read-back lists and the error kind are compared with
     (`reject_expected`), so the spec check does not depend on the model.
 
 `utils.is_url` is a parameter of the model: the real function is evaluated on every string of the
-case (and its space→plus image) and passed to the driver as a table.
+case (and its space→plus image) and passed to the driver as a table.  There is no assumption on it:
+`URL()` accepts a string iff it is valid as given AND after its spaces were replaced by '+'.
 
 Held-object histories (`op: get`): a list object is obtained once (`ws = t.webseeds`, `tr = t.trackers`,
 `tier = tr[i]`) and edited several times, also after operations that raised.  After every operation
@@ -29,7 +30,7 @@ RULE = ('histories = start state + operations on trackers / a tier / webseeds / 
         'call or on a list object obtained once and held (get) '
         '(set, append, insert, extend, +=, delete, slice delete, clear, remove, pop, replace, index '
         'and slice assignment) over the URL alphabet {a, b, c, "http://a b", "http://a+b", invalid, '
-        'blank, leading-space}: exhaustive short histories + random histories up to 8 operations '
+        'blank, leading-space (valid as given, invalid as stored)}: exhaustive short histories + random histories up to 8 operations '
         'from the empty torrent and from non-trivial start states; every prefix is one evaluation; '
         'non-trivial = the prefix changed at least one metainfo field at least twice or ended in an '
         'error after a change; distinct = distinct (start, operation prefix)')
@@ -39,7 +40,8 @@ SP, PL = 'http://a b', 'http://a+b'          # duplicates of each other after co
 BAD = 'foo'                                  # invalid (no scheme / netloc)
 BAD2 = 'http://h:99999/'                     # invalid (port)
 BAD3 = 'ht tp://x/'                          # invalid (scheme), but its space→plus image is a URL
-LEAD = ' http://l/'                          # is_url() accepts it, its coerced form is invalid (D16c)
+LEAD = ' http://l/'                          # is_url() accepts it, its coerced form '+http://l/' is invalid:
+                                             # URL() must reject it (former finding D16c, /repo ae2b587)
 URLS = [A, B, C, SP, PL, BAD]
 
 # what `utils.is_url` is documented to decide (scheme and netloc present, port valid)
@@ -438,10 +440,17 @@ def stored_urls(op):
     return [u for x in op['vs'] for u in tier_urls(x)]
 
 
+def acceptable(u, is_url):
+    """what URL() may store: the string is a URL as given AND after the coercion (the stored string
+    is `u.replace(' ', '+')`; "every stored URL is well-formed" leaves no other choice)"""
+    return bool(is_url.get(u, False)) and bool(is_url.get(u.replace(' ', '+'), False))
+
+
 def reject_expected(op, before_rb, is_url):
-    """True iff the property demands the URL error for this operation (it tries to store an
-    invalid URL, and — for an operation on a tier — that tier exists)."""
-    if not any(not is_url.get(u, False) for u in stored_urls(op)):
+    """True iff the property demands the URL error for this operation (it tries to store a URL that
+    is invalid as given or as it would be stored, and — for an operation on a tier — that tier
+    exists)."""
+    if all(acceptable(u, is_url) for u in stored_urls(op)):
         return False
     if op['on'] == 'tier':
         if before_rb is None:
@@ -466,7 +475,7 @@ def _group(op):
 
 def _own_reasons(observed, group):
     """reasons without those about the held object of the same list (they accompany a deviation of
-    that list; a held-object reason about ANOTHER list is kept and makes every matcher below fail)"""
+    that list; a held-object reason about ANOTHER list is kept and makes the D16a/b matchers fail)"""
     return [r for r in observed.get('reasons', []) if not r.startswith(f'held:{group}:')]
 
 
@@ -495,60 +504,53 @@ def match_d16b(case, observed, finding):
     return op['on'] == 'tr' and op['op'] == 'setslice' and _reasons_in_group(observed, 'tr')
 
 
-def match_d16c(case, observed, finding):
-    """first deviation AT a URL-level insert/append/extend/+= whose argument contains a string that
-    is_url() accepts while its space→plus image is not a URL; that image was stored"""
-    k = observed.get('step')
-    if k is None or observed.get('kind') != 'state':
-        return False
-    op = case['ops'][k]
-    if op['on'] not in ('ws', 'hs', 'tier') or op['op'] not in ('insert', 'append', 'extend', 'iadd'):
-        return False
-    tbl = observed.get('is_url', {})
-    bad = [u for u in stored_urls(op) if tbl.get(u) and not tbl.get(u.replace(' ', '+'))]
-    g = _group(op)
-    rs = _own_reasons(observed, g)
-    return bool(bad) and bool(rs) and all(r in ('readback-failed', g + ':invalid-url-stored') for r in rs)
-
-
 def match_d16d(case, observed, finding):
-    """the deviation concerns ONLY a held list object (metainfo and fresh read-back agree with each
-    other), and that very object — obtained by the last `get` of its list and not replaced by an
-    assignment since — has had a `replace()` that raised URLError: on the tiers container any
-    replace() with an invalid URL, on a URL list (webseeds / httpseeds / a tier) a replace() whose
-    argument contains a string that is_url() accepts while its space→plus image is not a URL (the
-    second coercion inside `_callback_disabled()` raises).  A failing extend/append/insert or a
-    replace() that succeeded never matches."""
+    """the deviation occurs AT a `replace()` on a HELD Trackers object that raised URLError, concerns
+    ONLY that held object (all reasons are `held:tr:…`: metainfo and fresh read-back agree with each
+    other), nothing was written by that operation (the metainfo is what it was before), and the
+    object holds nothing but URLs of the rejected argument (it is cleared / half replaced).
+    Nothing else matches: not a replace() that succeeded, not a failing extend/append/insert, not a
+    replace() on a URL list (atomic), and not a LATER operation on the object — after a failed
+    replace() the next operation that runs the change callback must bring the metainfo back in
+    sync (`_classify` continues the history after this finding and checks that)."""
     k = observed.get('step')
     trail = observed.get('trail')
     rs = observed.get('reasons', [])
     if k is None or observed.get('kind') != 'state' or not trail or not rs:
         return False
-    if any(not r.startswith('held:') for r in rs):
+    if any(not r.startswith('held:tr:') for r in rs):
         return False
-    groups = {r.split(':')[1] for r in rs}
-    if len(groups) != 1:
+    op = case['ops'][k]
+    if op['on'] != 'tr' or op['op'] != 'replace' or list(trail[k]) != ['held', 'url']:
         return False
-    g = groups.pop()
-    tbl = observed.get('is_url', {})
-    for j in range(k, -1, -1):
-        op, (via, out) = case['ops'][j], trail[j]
-        if _group(op) != g:
-            continue
-        if via == 'get' or (op['op'] == 'set' and out == 'ok'):
-            return False                      # another object since then
-        if via == 'held' and op['op'] == 'replace' and out == 'url':
-            if op['on'] == 'tr':
-                return True
-            if any(tbl.get(u) and not tbl.get(u.replace(' ', '+')) for u in op['us'] if isinstance(u, str)):
-                return True
-    return False
+    if 'before' not in observed or observed.get('mi') != observed['before']:
+        return False
+    held = (observed.get('held') or {}).get('tr')
+    if held is None:
+        return False
+    new = {u.replace(' ', '+') for u in stored_urls(op)}
+    return all(u in new for tier in held for u in tier)
 
+
+D16D_MATCHER = 'c16_failed_replace_on_held_object'
 
 MATCHERS = {'c16_setitem_on_url_list': match_d16a,
             'c16_slice_assignment_on_tiers': match_d16b,
-            'c16_coerced_url_not_revalidated': match_d16c,
-            'c16_failed_replace_on_held_object': match_d16d}
+            D16D_MATCHER: match_d16d}
+
+
+def callback_must_have_run(op, via, step, prev_held_tr, before_mi):
+    """after a failed replace() on the held Trackers object: does THIS operation (on that object or
+    on one of its tiers) certainly run the object's change callback?  Yes if it changed the content
+    of the object, if it wrote to announce / announce-list, or if it returned normally and is not
+    extend / += (which run the callback once per appended value, i.e. possibly never)."""
+    if via != 'held' or _group(op) != 'tr':
+        return False
+    if op['op'] == 'replace' and op['on'] == 'tr' and step['out'] == 'url':
+        return False                              # again the operation of D16d
+    changed = step['held'].get('tr') != prev_held_tr
+    wrote = any(step['mi'][f] != before_mi[f] for f in ('announce', 'announce-list'))
+    return changed or wrote or (step['out'] == 'ok' and op['op'] not in ('extend', 'iadd'))
 
 
 # ----------------------------------------------------------------------------------------------
@@ -562,7 +564,7 @@ def _u(on, name, **kw):
 def single_ops_full():
     ops = []
     for on in ('ws',):
-        ops += [_u(on, 'append', u=u) for u in (A, B, SP, PL, BAD, BAD3)]
+        ops += [_u(on, 'append', u=u) for u in (A, B, SP, PL, BAD, BAD3, LEAD)]
         ops += [_u(on, 'insert', i=0, u=u) for u in (A, B, BAD)] + [_u(on, 'insert', i=-1, u=SP)]
         ops += [_u(on, 'set', v=v) for v in (None, A, [A, B], [SP, PL], [A, BAD], [], {'other': 1}, '')]
         ops += [_u(on, 'extend', us=us) for us in ([A, B], [A, BAD, B], [PL, SP], [])]
@@ -570,7 +572,7 @@ def single_ops_full():
         ops += [_u(on, 'delete', i=i) for i in (0, -1, 1)]
         ops += [_u(on, 'delslice', a=0, b=1), _u(on, 'delslice', a=1, b=None), _u(on, 'clear')]
         ops += [_u(on, 'remove', u=A), _u(on, 'remove', u=PL), _u(on, 'pop', i=None), _u(on, 'pop', i=0)]
-        ops += [_u(on, 'replace', us=[B, A]), _u(on, 'replace', us=[A, BAD])]
+        ops += [_u(on, 'replace', us=[B, A]), _u(on, 'replace', us=[A, BAD]), _u(on, 'replace', us=[B, LEAD])]
         ops += [_u(on, 'setitem', i=0, u=A), _u(on, 'setitem', i=0, u=B), _u(on, 'setitem', i=-1, u=SP),
                 _u(on, 'setitem', i=0, u=BAD)]
         ops += [_u(on, 'setslice', a=0, b=1, us=[A, A]), _u(on, 'setslice', a=0, b=0, us=[B]),
@@ -579,7 +581,7 @@ def single_ops_full():
             _u('hs', 'clear'), _u('hs', 'setitem', i=0, u=A)]
     ops += [_u('tr', 'set', v=v) for v in (None, A, [A, B], [[A, B], [SP]], [[A], [BAD]], BAD, [],
                                            [[A], [A, B]], {'other': 1}, '', [''])]
-    ops += [_u('tr', 'append', v=v) for v in (A, [A, B], [B, PL], [BAD], '', [C, BAD], BAD3)]
+    ops += [_u('tr', 'append', v=v) for v in (A, [A, B], [B, PL], [BAD], '', [C, BAD], BAD3, [C, LEAD])]
     ops += [_u('tr', 'insert', i=0, v=[B]), _u('tr', 'insert', i=0, v=SP), _u('tr', 'insert', i=-1, v=[C])]
     ops += [_u('tr', 'extend', vs=[[A], [B]]), _u('tr', 'extend', vs=[[C], [BAD], [B]]), _u('tr', 'extend', vs=[])]
     ops += [_u('tr', 'iadd', vs=[[B, A]]), _u('tr', 'iadd', vs=[])]
@@ -593,6 +595,7 @@ def single_ops_full():
         cand = {
             'append-a': _u('tier', 'append', ti=ti, u=A), 'append-b': _u('tier', 'append', ti=ti, u=B),
             'append-sp': _u('tier', 'append', ti=ti, u=SP), 'append-bad': _u('tier', 'append', ti=ti, u=BAD),
+            'append-lead': _u('tier', 'append', ti=ti, u=LEAD),
             'insert': _u('tier', 'insert', ti=ti, i=0, u=PL), 'delete': _u('tier', 'delete', ti=ti, i=0),
             'clear': _u('tier', 'clear', ti=ti), 'extend': _u('tier', 'extend', ti=ti, us=[A, B]),
             'extend-bad': _u('tier', 'extend', ti=ti, us=[C, BAD]),
@@ -729,11 +732,11 @@ def held_ops_urls(on, **kw):
     ones that raise URLError (at the start, in the middle and at the end of a batch), ValueError,
     IndexError"""
     o = lambda n, **a: _u(on, n, **kw, **a)   # noqa
-    return [o('append', u=A), o('append', u=B), o('append', u=C), o('append', u=BAD), o('append', u=SP),
+    return [o('append', u=A), o('append', u=B), o('append', u=C), o('append', u=BAD), o('append', u=SP), o('append', u=LEAD),
             o('insert', i=0, u=C), o('insert', i=0, u=BAD2),
             o('extend', us=[B, C]), o('extend', us=[C, BAD]), o('extend', us=[BAD, C]), o('extend', us=[B, BAD, C]),
             o('iadd', us=[C]), o('iadd', us=[C, BAD]), o('iadd', us=[BAD]),
-            o('replace', us=[B, C]), o('replace', us=[C, BAD]), o('replace', us=[]),
+            o('replace', us=[B, C]), o('replace', us=[C, BAD]), o('replace', us=[]), o('replace', us=[C, LEAD]),
             o('remove', u=A), o('remove', u=C), o('pop', i=None), o('pop', i=7), o('delete', i=0), o('delete', i=5),
             o('delslice', a=0, b=1), o('clear'),
             o('setitem', i=0, u=C), o('setitem', i=0, u=BAD), o('setslice', a=0, b=0, us=[C, BAD])]
@@ -746,7 +749,8 @@ def held_ops_tiers():
            o('insert', i=0, v=[C]), o('insert', i=0, v=BAD),
            o('extend', vs=[[C], [SP]]), o('extend', vs=[[C], [BAD]]), o('extend', vs=[[BAD], [C]]),
            o('iadd', vs=[[C]]), o('iadd', vs=[[C], [BAD], [B]]),
-           o('replace', vs=[[B], [C]]), o('replace', vs=[]), o('replace', vs=[[C], [BAD]]),
+           o('replace', vs=[[B], [C]]), o('replace', vs=[]), o('replace', vs=[[C], [BAD]]), o('replace', vs=[[BAD], [C]]),
+           o('replace', vs=[[C, LEAD]]),
            o('remove', us=[A]), o('remove', us=[C]), o('pop', i=None), o('pop', i=7), o('delete', i=0), o('delete', i=5),
            o('delslice', a=0, b=1), o('clear'), o('setitem', i=0, v=[C]), o('setitem', i=0, v=[BAD])]
     for ti in (0, 1):
@@ -786,7 +790,8 @@ def gen_held_exhaustive(ctx):
     fails = {'ws': [_u('ws', 'extend', us=[B, BAD, C]), _u('ws', 'iadd', us=[BAD]), _u('ws', 'replace', us=[C, BAD]),
                     _u('ws', 'setslice', a=0, b=0, us=[C, BAD]), _u('ws', 'remove', u=C), _u('ws', 'pop', i=7)],
              'tr': [_u('tr', 'extend', vs=[[C], [BAD]]), _u('tr', 'iadd', vs=[[BAD]]), _u('tr', 'append', v=[C, BAD]),
-                    _u('tier', 'extend', ti=0, us=[C, BAD]), _u('tier', 'iadd', ti=-1, us=[BAD]), _u('tr', 'pop', i=7)]}
+                    _u('tier', 'extend', ti=0, us=[C, BAD]), _u('tier', 'iadd', ti=-1, us=[BAD]), _u('tr', 'pop', i=7),
+                    _u('tr', 'replace', vs=[[C], [BAD]]), _u('tr', 'replace', vs=[[B, SP], [C], BAD2])]}
     tails = {'ws': [_u('ws', 'append', u=C), _u('ws', 'insert', i=0, u=SP), _u('ws', 'remove', u=A), _u('ws', 'clear'),
                     _u('ws', 'extend', us=[B, C]), _u('ws', 'delete', i=0)],
              'tr': [_u('tr', 'append', v=[C]), _u('tier', 'append', ti=0, u=SP), _u('tier', 'clear', ti=0), _u('tr', 'clear'),
@@ -977,11 +982,14 @@ def _classify(ctx, c, steps, is_url, r):
     nchanges, prev_mi = 0, before_mi
     msteps = iter(r['steps'])
     trail = []
+    d16d_ids = {f['id'] for f in ctx.open_findings() if f.get('matcher') == D16D_MATCHER}
+    desync = False        # the held Trackers object differs from the metainfo since a failed replace() (D16d)
+    model_valid = True    # the fresh-getter translation still describes the history
     for k, s in enumerate(steps):
         op = c['ops'][k]
         mop = s['mop']
         m = next(msteps) if mop is not None else None
-        hyp = bool(m and m['hyp'])
+        hyp = bool(m and m['hyp']) and model_valid
         via = s['via']
         trail.append([via, s['out']])
         key += '|' + _opstr(op)
@@ -1003,27 +1011,52 @@ def _classify(ctx, c, steps, is_url, r):
                                     {'case': case, 'step': k, 'reasons': reasons, 'lean': lean_ok, 'obs': s})
                 return None
         hreasons = held_reasons(s['mi'], s['rb'], s['held'])
+        if desync:
+            # D16d was counted at the failed replace(); from there on the held Trackers object may
+            # stay out of sync only until an operation runs its change callback
+            tr_h = [x for x in hreasons if x.startswith('held:tr:')]
+            prev_tr = steps[k - 1]['held'].get('tr') if k else None
+            if 'tr' not in s['held']:
+                desync = False                                         # assigned: the object is stale
+                ctx.dist['after-failed-replace:object-dropped'] += 1
+            elif not tr_h:
+                desync = False
+                ctx.dist['after-failed-replace:in-sync-again'] += 1
+            elif callback_must_have_run(op, via, s, prev_tr, before_mi):
+                ctx.dist['after-failed-replace:deviation-at-callback-operation'] += 1   # reported below (VIOLATION unless it is D16a/b itself)
+            elif not (via == 'held' and op['on'] == 'tr' and op['op'] == 'replace' and s['out'] == 'url'):
+                hreasons = [x for x in hreasons if x not in tr_h]      # the same deviation, still there
+                ctx.dist['after-failed-replace:still-out-of-sync'] += 1
         obs = {'step': k, 'op': op, 'mi': s['mi'], 'rb': s['rb'], 'out': s['out'], 'rbexc': s['rbexc']}
         if s['held'] or via != 'fresh':
-            obs.update(held=s['held'], via=via, trail=list(trail))
+            obs.update(held=s['held'], via=via, trail=list(trail), before=before_mi)
         if not legacy or not reasons:
             legacy = False if not reasons else legacy
         if (reasons and not legacy) or hreasons:
             allr = (reasons if not legacy else []) + hreasons
             obs.update(kind='state', reasons=allr, is_url={u: is_url.get(u) for u in is_url})
-            exp = {'model_mi': m['mi'], 'model_rb': m['rb'], 'model_out': m['out'], 'hyp': hyp} if m else \
-                  {'metainfo': 'unchanged by obtaining a list object', 'before': before_mi}
+            exp = {'model_mi': m['mi'], 'model_rb': m['rb'], 'model_out': m['out'], 'hyp': hyp} if m and model_valid else \
+                  {'metainfo': 'unchanged by obtaining a list object', 'before': before_mi} if not m else \
+                  {'after a failed replace() on the held object': 'the next operation that runs the change callback '
+                   'writes the content of the object to announce / announce-list'}
             if hreasons:
                 exp['held'] = 'the metainfo fields mirror the held list object and reading the list back gives its content'
-            verdict = ctx.violation(
+            v = ctx.violation(
                 f'after operation {k} ({op["on"]}.{op["op"]}{" on a held list object" if via == "held" else ""}) '
                 f'metainfo and lists are out of sync: {", ".join(allr)}',
                 case, exp, obs, finding_matchers=MATCHERS) or 'violation'
-            return verdict
+            if v in d16d_ids:
+                # a failed replace() on the held Trackers object: recorded; the history goes on (the
+                # model translation is not valid for the rest of it, the specification is)
+                verdict = verdict or v
+                desync, model_valid = True, False
+                before_rb, before_mi = s['rb'], s['mi']
+                continue
+            return verdict or v
         if s['out'].startswith('internal:'):
             obs.update(kind='outcome')
             ctx.violation(f'operation {k} ({op["on"]}.{op["op"]}) raised an undocumented {s["out"][9:]}',
-                          case, {'model_out': m['out'] if m else None}, obs, finding_matchers=MATCHERS)
+                          case, {'model_out': m['out'] if m and model_valid else None}, obs, finding_matchers=MATCHERS)
             return 'violation'
         if m is None:
             # obtaining a list object / a skipped stale tier handle: nothing may change
@@ -1034,6 +1067,10 @@ def _classify(ctx, c, steps, is_url, r):
                               case, {'mi': before_mi, 'rb': steps[k - 1]['rb'] if k else None, 'out': want_out}, obs,
                               finding_matchers=MATCHERS)
                 return 'violation'
+            continue
+        if not model_valid:
+            ctx.dist['after-failed-replace:spec-only'] += 1
+            before_rb, before_mi = s['rb'], s['mi']
             continue
         if not legacy and reject_expected(mop, before_rb, is_url):
             atomic = mop['op'] not in ('extend', 'iadd')
@@ -1046,7 +1083,7 @@ def _classify(ctx, c, steps, is_url, r):
                 return 'violation'
         # --- correspondence and sanity under the hypothesis ------------------------------
         same = (s['mi'] == m['mi'] and s['rb'] == m['rb'] and s['out'] == m['out'])
-        if hyp or (legacy and r['assumption'] and m['hyp'] is False and _clean_prefix(c['ops'], k)):
+        if hyp or (legacy and m['hyp'] is False and _clean_prefix(c['ops'], k)):
             if hyp and not m['specM']:
                 ctx.machinery_error('model violates Spec.holds under the hypothesis of C16_inv_reachable_partial',
                                     {'case': case, 'step': k, 'model': m})
@@ -1097,15 +1134,18 @@ def _replay_findings(ctx, drv):
 def run(ctx, drv):
     ctx.notes['rule'] = RULE
     ctx.notes['assumptions'] = [
-        'utils.is_url (urllib.parse) is a parameter isUrl of the model; the real function is evaluated on every '
-        'string of a case and on its space→plus image; theorems assume isUrl u → isUrl (spaceToPlus u) '
-        '(the driver evaluates this per case as part of `hyp`; it is false for strings with leading white space, D16c)',
+        'utils.is_url (urllib.parse) is an arbitrary parameter isUrl of the model and of the theorems (no assumption on it '
+        'any more: URL() accepts u iff is_url(u) and is_url(u.replace(" ", "+")), /repo ae2b587); the real function is '
+        'evaluated on every string of a case and on its space→plus image and passed to the driver as a table',
         'plain histories: every operation goes through a fresh getter call (torrent.trackers.append(x)). Held-object '
         'histories: per list at most ONE object is edited at a time (ws = t.webseeds / hs / tr = t.trackers / tier = tr[i], '
         'several operations on it, also after operations that raised; stale tier handles are skipped); they are checked '
         'implementation-vs-specification directly (metainfo mirrors the held object, read-back equals it) and against the '
         'model through the equivalent fresh-getter history (callback alive => same state machine; proved in Lean only for '
         'replace/append/clear on a held Trackers object); two objects of one list edited alternately are not modelled',
+        'after a replace() that raised on a held Trackers object (open finding D16d: object half replaced, nothing written) '
+        'the rest of that history is checked against the specification only (the next operation that runs the change '
+        'callback must re-synchronise the metainfo with the object), not against the model',
         'values are None / str / list of str / list of (str | list of str) / a non-iterable; deeper nesting, '
         'extended slices (step != 1), assigning a list to an integer index of a URL list and reverse()/sort() are not modelled',
         'the metainfo fields only hold what the API itself writes (plus two legacy start states that are '
